@@ -99,7 +99,9 @@ def read_flags(ctx, o, when="on a fresh object"):
 def run(ctx):
     n_models = (200 if ctx.quick else 1500) * (3 if ctx.search else 1)
     for _ in range(n_models):
-        a, o, t = gen_valid(ctx.rng, ctx.quick, prefix_p=0.2)
+        a, o, t = gen_valid(ctx.rng, ctx.quick, prefix_p=0.2, empty_p=0.04)
+        if ctx.rng.random() < 0.12:
+            a, o, t = gen_valid_signed_sum(ctx.rng)     # explicit signs against thresholds of either sign, leaves around zero
         for _ in range(3):
             I = gen_interp(ctx.rng, t, total=False, in_bounds=ctx.rng.random() < 0.8)
             do_case(ctx, {"ast": a, "I": {k: list(v) for k, v in I.items()}})
